@@ -31,6 +31,20 @@ Theorem C14_compile_deterministic :
 Proof. exact @compile_deterministic. Qed.
 Print Assumptions C14_compile_deterministic.
 
+(* total form: acyclic dependencies (a rank decreasing along them), all present in the bundle, more fuel
+   than the rank: EVERY run returns, with the package as the bundle alone determines it (the Go code
+   needs no fuel: it recurses along the same relation and reports cycles) *)
+Theorem C14_compile_total_deterministic :
+  forall (F D : Type) (convert : env -> @srcfile F -> D) (b : @bundle F) rank,
+  valid b -> well_founded_deps b rank ->
+  forall lf rd rf,
+    (forall n l, Permutation (lf n l) l) -> (forall n l, Permutation (rd n l) l) -> (forall n l, Permutation (rf n l) l) ->
+  forall fuel earlier n, find_pkg n b <> None -> (rank n < fuel)%nat ->
+    exists c, compile_package convert lf rd rf fuel b (compile_seq convert lf rd rf fuel b [] earlier) n
+              = Some (c, p_files (spec_pkg convert b n)).
+Proof. exact @compile_total_deterministic. Qed.
+Print Assumptions C14_compile_total_deterministic.
+
 (* what it returns: the package as a function of the bundle alone *)
 Theorem C14_compile_package_spec :
   forall (F D : Type) (convert : env -> @srcfile F -> D) lf rd rf,
